@@ -478,7 +478,7 @@ pub fn run_c09(cfg: &Config) -> i32 {
 		},
 		total,
 		started,
-		100_000,
+		if cfg.san { 2_000 } else { 100_000 },
 	)
 	.exit
 }
